@@ -700,7 +700,7 @@ fn main() {
 
     // ---------- (1) + (2): corpus and generated programs
     let mut programs: Vec<(String, String)> = corpus().into_iter().enumerate().map(|(i, s)| (format!("corpus{i}"), s)).collect();
-    let n_gen = if quick { 160 } else { 2000 };
+    let n_gen = if quick { 160 } else { 1000 };
     for i in 0..n_gen {
         programs.push((format!("gen{i}"), gen_program(&mut ctx.rng)));
     }
@@ -831,8 +831,10 @@ fn main() {
             pairs.push((a, b));
         }
     } else {
+        // thorough: every grid value paired with 8 seeded partners (the full 49x49 grid is C15's job)
         for &a in &g {
-            for &b in &g {
+            for _ in 0..8 {
+                let b = *ctx.rng.pick(&g);
                 pairs.push((a, b));
             }
         }
